@@ -594,12 +594,13 @@ def _parse_experimental_function_value_info_name(
         A tuple of the function domain, function name and value name if the value info is for a function.
         None otherwise.
     """
-    parts = name.split("/")
-    expected_parts = 2
-    if len(parts) != expected_parts:
+    # Only the first "/" separates the function from the value: value names
+    # commonly contain "/" themselves (e.g. "/model/layer/Add_output_0")
+    function, separator, value_name = name.partition("/")
+    if not separator:
         return None
-    function, value_name = parts
     parts = function.split("::")
+    expected_parts = 2
     if len(parts) != expected_parts:
         return None
     # NOTE: There will not be overload because overloads are introduced in ONNX IR v10, which also
